@@ -17,6 +17,7 @@ COQ = os.path.join(ROOT, "coq")
 WORK = os.path.join(ROOT, "work")
 CARGO_TARGET = os.environ.get("VERIF_CARGO_TARGET", os.path.join(ROOT, "build", "cargo"))
 NPROC = 16
+REPO = os.environ.get("VERIF_REPO", "/repo")
 
 FORBIDDEN = re.compile(
     r"\b(Admitted|admit|Axiom|Axioms|Parameter|Parameters|Conjecture|Admit Obligations|"
@@ -156,9 +157,6 @@ def proof_stage(pid, targets, allow_axioms=()):
 
 # ------------------------------------------------------------------ tie stage
 
-REPO = os.environ.get("VERIF_REPO", "/repo")
-
-
 def harness_dir():
     """/verif/harness builds against /repo.  For the integrator's mutation experiments
     VERIF_REPO=<worktree> builds a copy of the harness whose path dependencies point at that
@@ -243,6 +241,8 @@ def write_replay(pid, payload):
 
 
 def write_evidence(pid, tier, seed, coverage, assumptions, wall, violations, level="proof"):
+    if REPO != "/repo":      # mutation experiment against a scratch worktree: never touch the evidence
+        return
     os.makedirs(os.path.join(ROOT, "evidence"), exist_ok=True)
     ev = {"property_id": pid, "tier": tier, "seed": seed, "level": level, "coverage": coverage,
           "assumptions": assumptions, "wall_s": round(wall, 1), "violations": violations}
